@@ -111,9 +111,10 @@ def case(spec):
     kw["index_opts"] = {}
     work = harness.fresh(os.path.join(spec["work"], "c%d" % spec["n"]))
     d = os.path.join(work, "d")
-    datadir.write_datadir(d, COINS[coin], **kw)
+    xor_key = bytes(lrng.randrange(1, 256) for _ in range(8)) if spec["n"] % 3 == 0 else None   # reopened files must keep their key
+    datadir.write_datadir(d, COINS[coin], xor_key=xor_key, **kw)
     binary = core.build("release")
-    v, counters, shapes = [], {"runs": 0}, []
+    v, counters, shapes = [], {"runs": 0, "xor_obfuscated_layouts": 1 if xor_key else 0}, []
     nf = desc["files"]
     fclass = "1" if nf == 1 else ("2-9" if nf < 10 else ("10-99" if nf < 100 else "100+"))
     tip = chain[-1][0]
